@@ -66,3 +66,340 @@ def lean_lemma(index, registry):
         out, res = repr(ex), "unknown"
     return [{"name": "lemma::Ltmads.lean::det_ltmads_ne_zero+pos_span_of_basis", "kind": "lemma", "top": True, "result": res, "secs": round(time.time() - t0, 1),
              "backend": "lean4+mathlib", "reason": out[-400:] if res != "unsat" else None, "model": {"lean_output": out[-400:]}}]
+
+
+# ---------------------------------------------------------------------------------------------------------------------
+# C07: causes of irreproducibility that contracts / effect scans can decide (level "other")
+# ---------------------------------------------------------------------------------------------------------------------
+RNG_NAMES = {"randint", "rand", "randn", "normal", "uniform", "permutation", "choice", "random", "shuffle", "standard_normal", "multivariate_normal", "random_sample"}
+MUTATORS = {"append", "extend", "insert", "pop", "remove", "clear", "update", "setdefault", "add", "discard", "popitem", "sort", "reverse", "fill", "put", "resize", "__setitem__"}
+LIB = ("pybads.testing", "pybads.examples", "pybads.bads.option_configs", "pybads.testing_utils")
+
+
+def _lib_funcs(index):
+    for q, fi in index.funcs.items():
+        if not q.startswith(LIB) and ".testing." not in q and ".examples." not in q:
+            yield q, fi
+
+
+def _attr_chain(n):
+    out = []
+    while isinstance(n, ast.Attribute):
+        out.append(n.attr)
+        n = n.value
+    if isinstance(n, ast.Name):
+        out.append(n.id)
+    return list(reversed(out))
+
+
+def _draws_directly(call):
+    ch = _attr_chain(call.func)
+    if len(ch) >= 3 and ch[0] in ("np", "numpy") and ch[1] == "random" and ch[2] in RNG_NAMES:
+        return True
+    if len(ch) == 2 and ch[0] in ("rnd", "random") and ch[1] in RNG_NAMES:
+        return True
+    if ch and ch[-1] in ("fit", "sample", "slice_sample") and len(ch) >= 2:
+        return True  # gpyreg optimiser restarts / samplers draw from NumPy's global generator
+    return False
+
+
+def _rng_closure(index):
+    """Functions that (transitively, by simple name resolution over the repository) draw from NumPy's global generator."""
+    direct, callees = set(), {}
+    for q, fi in _lib_funcs(index):
+        cs = set()
+        for n in ast.walk(fi.node):
+            if isinstance(n, ast.Call):
+                if _draws_directly(n):
+                    direct.add(q)
+                name = n.func.id if isinstance(n.func, ast.Name) else (n.func.attr if isinstance(n.func, ast.Attribute) else None)
+                if name:
+                    cs.add(name)
+        callees[q] = cs
+    by_simple = {}
+    for q, fi in _lib_funcs(index):
+        by_simple.setdefault(q.split(".")[-1], set()).add(q)
+    draws = set(direct)
+    changed = True
+    while changed:
+        changed = False
+        for q, cs in callees.items():
+            if q in draws:
+                continue
+            for c in cs:
+                if c in ("__init__",):
+                    continue
+                if by_simple.get(c, set()) & draws:
+                    draws.add(q)
+                    changed = True
+                    break
+    return draws, by_simple
+
+
+def _stmt_draws(stmt, draws, by_simple, skip=()):
+    for n in ast.walk(stmt):
+        if isinstance(n, ast.Call):
+            if _draws_directly(n):
+                return ast.unparse(n)[:80]
+            name = n.func.id if isinstance(n.func, ast.Name) else (n.func.attr if isinstance(n.func, ast.Attribute) else None)
+            if name and name not in skip and (by_simple.get(name, set()) & draws):
+                return ast.unparse(n)[:80]
+    return None
+
+
+def rng_typestate(index, registry):
+    """Seeding precedes every draw: in BADS.__init__ and in BADS._init_optimization_ (first callee of optimize) the call of
+    _init_random_seed_ comes before the first statement that (transitively) draws from NumPy's global generator or calls the
+    target; _init_random_seed_ seeds with int(options['random_seed']) whenever it is not None; optimize draws nothing before
+    _init_optimization_."""
+    B = "pybads.bads.bads.BADS."
+    draws, by_simple = _rng_closure(index)
+    out = []
+
+    def ob(name, ok, model):
+        out.append({"name": "scan::rng::" + name, "kind": "typestate", "top": True, "result": "unsat" if ok else "sat", "secs": 0.0, "model": model})
+
+    for fn in ("__init__", "_init_optimization_"):
+        fi = index.find(B + fn)
+        seed_at, early = None, None
+        if fi is not None:
+            for k, st in enumerate(fi.node.body):
+                if any(isinstance(n, ast.Call) and isinstance(n.func, ast.Attribute) and n.func.attr == "_init_random_seed_" for n in ast.walk(st)):
+                    seed_at = k
+                    break
+                d = _stmt_draws(st, draws, by_simple, skip=("_init_random_seed_",))
+                if d and early is None:
+                    early = "line %d: %s" % (st.lineno, d)
+        ob("seeded_before_first_draw::" + fn, fi is not None and seed_at is not None and early is None, {"seed_statement_index": seed_at, "draw_before_seed": early})
+    fi = index.find(B + "optimize")
+    early, found = None, False
+    if fi is not None:
+        for st in fi.node.body:
+            if any(isinstance(n, ast.Call) and isinstance(n.func, ast.Attribute) and n.func.attr == "_init_optimization_" for n in ast.walk(st)):
+                found = True
+                break
+            d = _stmt_draws(st, draws, by_simple)
+            if d and early is None:
+                early = "line %d: %s" % (st.lineno, d)
+    ob("optimize_draws_nothing_before_init", found and early is None, {"draw_before_init": early})
+    fi = index.find(B + "_init_random_seed_")
+    ok = False
+    if fi is not None:
+        src = ast.unparse(fi.node)
+        ok = "np.random.seed(random_seed)" in src and "int(self.options['random_seed'])" in src and "is not None" in src
+    ob("seed_is_applied_when_given", ok, {})
+    # the Sobol design is seeded explicitly (from the start point, or from the already seeded global generator)
+    fi = index.find("pybads.init_functions.init_sobol.init_sobol")
+    ok, sites = fi is not None, []
+    if fi is not None:
+        for n in ast.walk(fi.node):
+            if isinstance(n, ast.Call) and isinstance(n.func, ast.Name) and n.func.id == "Sobol":
+                sites.append(ast.unparse(n))
+                if not any(k.arg == "seed" and not (isinstance(k.value, ast.Constant) and k.value.value is None) for k in n.keywords):
+                    ok = False
+        ok = ok and bool(sites)
+    ob("sobol_design_seeded_explicitly", ok, {"sites": sites})
+    return out
+
+
+def global_state_frame(index, registry):
+    """No function of the library writes module-level or class-level mutable state, or mutates a mutable default argument;
+    the one exception (exec of the evaluation parameters into the options module's globals) is followed in the same call by
+    every eval that reads them."""
+    bad = []
+    class_level = {}
+    for cls, cnode in getattr(index, "class_nodes", {}).items():
+        for st in cnode.body:
+            if isinstance(st, (ast.Assign, ast.AnnAssign)):
+                for t in (st.targets if isinstance(st, ast.Assign) else [st.target]):
+                    if isinstance(t, ast.Name):
+                        class_level.setdefault(cls, set()).add(t.id)
+    module_level = {}
+    for path, tree in getattr(index, "trees", {}).items():
+        names = set()
+        for st in tree.body:
+            if isinstance(st, (ast.Assign, ast.AnnAssign)):
+                for t in (st.targets if isinstance(st, ast.Assign) else [st.target]):
+                    if isinstance(t, ast.Name):
+                        names.add(t.id)
+        module_level[path] = names
+    exec_ok = False
+    for q, fi in _lib_funcs(index):
+        mod_names = module_level.get(fi.path, set())
+        cls_names = class_level.get(fi.cls, set()) if fi.cls else set()
+        params = {a.arg for a in fi.node.args.args + fi.node.args.kwonlyargs}
+        mut_defaults = set()
+        pos = fi.node.args.args
+        for a, d in zip(pos[len(pos) - len(fi.node.args.defaults):], fi.node.args.defaults):
+            if isinstance(d, (ast.List, ast.Dict, ast.Set)) or (isinstance(d, ast.Call) and isinstance(d.func, ast.Name) and d.func.id in ("list", "dict", "set")):
+                mut_defaults.add(a.arg)
+        local_assigned = {n.id for n in ast.walk(fi.node) if isinstance(n, ast.Name) and isinstance(n.ctx, ast.Store)}
+
+        def root(n):
+            while isinstance(n, (ast.Attribute, ast.Subscript)):
+                n = n.value
+            return n
+
+        for n in ast.walk(fi.node):
+            if isinstance(n, ast.Global):
+                bad.append("%s:%d global %s" % (q, n.lineno, ",".join(n.names)))
+            tgt = None
+            if isinstance(n, (ast.Assign, ast.AugAssign)):
+                for t in (n.targets if isinstance(n, ast.Assign) else [n.target]):
+                    if isinstance(t, (ast.Attribute, ast.Subscript)):
+                        tgt = t
+                        r = root(t)
+                        ch = _attr_chain(t if isinstance(t, ast.Attribute) else t.value)
+                        # ClassName.attr = / cls.attr = / type(self).attr =
+                        if isinstance(r, ast.Name) and (r.id in index.classes or r.id == "cls"):
+                            bad.append("%s:%d class-level store %s" % (q, n.lineno, ast.unparse(t)[:60]))
+                        # store into a module-level container
+                        if isinstance(r, ast.Name) and r.id in mod_names and r.id not in local_assigned and r.id not in params:
+                            bad.append("%s:%d module-level store %s" % (q, n.lineno, ast.unparse(t)[:60]))
+                        # self.X[...] = where X is defined at class level (shared by all instances)
+                        if isinstance(t, ast.Subscript) and len(ch) == 2 and ch[0] == "self" and ch[1] in cls_names:
+                            bad.append("%s:%d store into class-level container self.%s" % (q, n.lineno, ch[1]))
+                        if isinstance(r, ast.Name) and r.id in mut_defaults and isinstance(t, ast.Subscript):
+                            bad.append("%s:%d store into mutable default argument %s" % (q, n.lineno, r.id))
+            if isinstance(n, ast.Call) and isinstance(n.func, ast.Attribute) and n.func.attr in MUTATORS:
+                r = root(n.func.value)
+                ch = _attr_chain(n.func.value)
+                if isinstance(r, ast.Name) and r.id in mod_names and r.id not in local_assigned and r.id not in params:
+                    bad.append("%s:%d mutation of module-level %s" % (q, n.lineno, ast.unparse(n.func)[:60]))
+                if isinstance(r, ast.Name) and (r.id in index.classes or r.id == "cls") and len(ch) >= 2:
+                    bad.append("%s:%d mutation of class-level %s" % (q, n.lineno, ast.unparse(n.func)[:60]))
+                if len(ch) == 2 and ch[0] == "self" and ch[1] in cls_names:
+                    bad.append("%s:%d mutation of class-level container self.%s" % (q, n.lineno, ch[1]))
+                if isinstance(r, ast.Name) and r.id in mut_defaults and len(ch) == 1:
+                    bad.append("%s:%d mutation of mutable default argument %s" % (q, n.lineno, r.id))
+            if isinstance(n, ast.Call) and isinstance(n.func, ast.Name) and n.func.id == "exec":
+                if q.endswith("Options.load_options_file"):
+                    # the exec loop precedes the eval loop in the same call
+                    body = fi.node.body
+                    ex = [k for k, st in enumerate(body) if any(isinstance(m, ast.Call) and isinstance(m.func, ast.Name) and m.func.id == "exec" for m in ast.walk(st))]
+                    ev = [k for k, st in enumerate(body) if any(isinstance(m, ast.Call) and isinstance(m.func, ast.Name) and m.func.id == "eval" for m in ast.walk(st))]
+                    exec_ok = bool(ex) and bool(ev) and max(ex) < min(ev)
+                    if not exec_ok:
+                        bad.append("%s:%d exec into module globals is not followed by the evals that read it" % (q, n.lineno))
+                else:
+                    bad.append("%s:%d exec" % (q, n.lineno))
+    return [{"name": "scan::global_state::no_module_or_class_level_writes", "kind": "frame", "top": True, "result": "unsat" if not bad else "sat", "secs": 0.0,
+             "model": {"writes": bad[:12], "options_exec_then_eval": exec_ok}}]
+
+
+def entropy_sources(index, registry):
+    """No wall-clock, OS entropy, object identity / hash order or unseeded generator feeds the computation: such calls appear
+    only in the timer utility."""
+    bad, sites = [], []
+    for q, fi in _lib_funcs(index):
+        for n in ast.walk(fi.node):
+            if isinstance(n, ast.Call):
+                ch = _attr_chain(n.func)
+                hit = None
+                if ch[:1] == ["time"] or (ch and ch[-1] in ("urandom", "uuid4", "uuid1", "getrandbits", "default_rng", "RandomState", "SeedSequence", "perf_counter", "time_ns", "now")):
+                    hit = ".".join(ch)
+                if isinstance(n.func, ast.Name) and n.func.id in ("id", "hash"):
+                    hit = n.func.id
+                if hit:
+                    sites.append("%s:%d %s" % (q, n.lineno, hit))
+                    if ".timer." not in q and ".Timer." not in q:
+                        bad.append("%s:%d %s" % (q, n.lineno, hit))
+    return [{"name": "scan::entropy::only_the_timer_reads_the_clock", "kind": "effects", "top": True, "result": "unsat" if not bad else "sat", "secs": 0.0,
+             "model": {"sites": sites[:12], "outside_timer": bad[:12]}}]
+
+
+# ---------------------------------------------------------------------------------------------------------------------
+# C20: structure of the option loader and of the constructor's handling of caller-owned objects (syntactic obligations;
+# the loader itself - exec / eval / configparser / dict subclass - is outside the verified fragment)
+# ---------------------------------------------------------------------------------------------------------------------
+def options_structure(index, registry):
+    O = "pybads.bads.options.Options."
+    out = []
+
+    def ob(name, ok, model=None):
+        out.append({"name": "scan::options::" + name, "kind": "structure", "top": True, "result": "unsat" if ok else "sat", "secs": 0.0, "model": model or {}})
+
+    fi = index.find(O + "load_options_file")
+    ok, stores = fi is not None, []
+    if fi is not None:
+        # every store self[key] = ... sits under the guard `key not in self.get("useroptions")`
+        def walk(node, guarded):
+            for ch in ast.iter_child_nodes(node):
+                g = guarded
+                if isinstance(ch, ast.If) and "key not in self.get('useroptions')" in ast.unparse(ch.test):
+                    for b in ch.body:
+                        walk_stmt(b, True)
+                    for b in ch.orelse:
+                        walk_stmt(b, guarded)
+                    continue
+                walk_stmt(ch, g)
+
+        def walk_stmt(st, guarded):
+            if isinstance(st, (ast.Assign, ast.AugAssign)):
+                for t in (st.targets if isinstance(st, ast.Assign) else [st.target]):
+                    if isinstance(t, ast.Subscript) and isinstance(t.value, ast.Name) and t.value.id == "self":
+                        stores.append((st.lineno, guarded))
+            walk(st, guarded)
+
+        walk(fi.node, False)
+        ok = bool(stores) and all(g for _, g in stores)
+    ob("defaults_never_overwrite_user_options", ok, {"stores": stores})
+    fi = index.find(O + "__init__")
+    ok = False
+    if fi is not None:
+        src = [ast.unparse(s) for s in fi.node.body]
+        flat = "\n".join(src)
+        ok = "self.update(user_options)" in flat and "self['useroptions'].update(user_options.keys())" in flat and flat.index("self.load_options_file(") < flat.index("self.update(user_options)")
+    ob("user_options_applied_and_recorded_as_protected", ok)
+    fi = index.find(O + "validate_option_names")
+    ok = False
+    if fi is not None:
+        for n in ast.walk(fi.node):
+            if isinstance(n, ast.For) and "self.keys()" in ast.unparse(n.iter):
+                for m in ast.walk(n):
+                    if isinstance(m, ast.If) and "key not in file_option_names" in ast.unparse(m.test) and any(isinstance(x, ast.Raise) and "ValueError" in ast.unparse(x) for x in m.body):
+                        ok = True
+    ob("unknown_option_name_raises_ValueError", ok)
+    fi = index.find("pybads.bads.bads.BADS.__init__")
+    ok = False
+    if fi is not None:
+        flat = ast.unparse(fi.node)
+        i1, i2, i3 = flat.find("Options(basic_path"), flat.find("self.options.load_options_file(advanced_path"), flat.find("self.options.validate_option_names([basic_path, advanced_path])")
+        ok = 0 <= i1 < i2 < i3 and "user_options=options" in flat
+    ob("constructor_loads_user_options_then_advanced_file_then_validates", ok)
+    # caller-owned arrays: no in-place store through a parameter that may still alias the caller's object
+    bad = []
+    for q in ("pybads.bads.bads.BADS.__init__", "pybads.bads.bads.BADS._bounds_check_", "pybads.variable_transformer.variables_transformer.VariableTransformer.__init__"):
+        fi = index.find(q)
+        if fi is None:
+            bad.append(q + " not found")
+            continue
+        params = {a.arg for a in fi.node.args.args} - {"self"}
+        fresh = set()
+
+        def is_fresh(e):
+            if isinstance(e, ast.BinOp):
+                return True
+            if isinstance(e, ast.Call):
+                f = ast.unparse(e.func)
+                return f.endswith(".copy") or f in ("np.copy", "np.maximum", "np.minimum", "np.full", "np.ones", "np.zeros", "np.array", "np.vstack", "np.concatenate", "np.random.uniform", "np.empty")
+            return False
+
+        for st in ast.walk(fi.node):
+            if isinstance(st, ast.Assign):
+                for t in st.targets:
+                    if isinstance(t, ast.Name) and t.id in params and is_fresh(st.value):
+                        fresh.add((t.id, st.lineno))
+        for st in ast.walk(fi.node):
+            if isinstance(st, (ast.Assign, ast.AugAssign)):
+                for t in (st.targets if isinstance(st, ast.Assign) else [st.target]):
+                    r = t
+                    while isinstance(r, (ast.Subscript, ast.Attribute)):
+                        r = r.value
+                    if isinstance(t, ast.Subscript) and isinstance(r, ast.Name) and r.id in params:
+                        if not any(nm == r.id and ln < st.lineno for nm, ln in fresh):
+                            bad.append("%s:%d in-place store into parameter %s" % (q, st.lineno, r.id))
+                    if isinstance(st, ast.AugAssign) and isinstance(t, ast.Name) and t.id in params and not any(nm == t.id and ln < st.lineno for nm, ln in fresh):
+                        bad.append("%s:%d augmented assignment to parameter %s" % (q, st.lineno, t.id))
+    ob("caller_arrays_never_stored_into", not bad, {"stores": bad[:8]})
+    return out
